@@ -177,7 +177,7 @@ def gen_history(seed, tier, prop, kinds_allowed):
     # sizes
     if regime == 'exact':
         n = _weighted(r, [(r.randint(2, 12), 3), (r.randint(13, 64), 4), (r.randint(65, 256 if thorough else 128), 1),
-                          (r.randint(300, 1000), 0.5 if numba_kind else 1.6)])   # batches of several hundred rows: counters / sums kept in a narrow integer type wrap
+                          (r.randint(300, 1000), 0.5 if numba_kind else 4.0)])   # batches of several hundred rows: counters / sums kept in a narrow integer type wrap
     else:
         n = r.randint(24, 96)
     wide = thorough and kind in ('anova', 'nicv', 'snr', 'mia', 'ttacc') and r.random() < 0.05
